@@ -356,8 +356,9 @@ def recurrent_shard(variant, T):
     trainable, transforms = variant[:2]
     unequal = len(variant) > 2 and variant[2]  # feedback group of 3 neurons behind a feed-forward group of 2
     intr = len(variant) > 3 and variant[3]  # input-side transforms on the two recurrent paths, and non-default component names
+    only = variant[4] if len(variant) > 4 else None  # "lateral" / "feedback": only that one of the two input transforms is given
     case = {"layer": "RecurrentSerial", "trainable_feedback": trainable, "transforms": transforms, "T": T, "group_sizes": [2, 3 if unequal else 2],
-            "in_transforms_and_names": bool(intr)}
+            "in_transforms_and_names": bool(intr), "only_in_transform": only}
     nfbsz = 3 if unequal else 2
     Wl, Wf = (W2U, W3U) if unequal else (W2, W3)
     kw = {}
@@ -367,10 +368,15 @@ def recurrent_shard(variant, T):
     names = {}
     if intr:
         # lateral path sees the inverted feed-forward spikes, feedback path the feedback spikes rolled by one neuron
-        kw = dict(kw, lateral_in_transform=lambda s: (~s,), feedback_in_transform=lambda s: (s.roll(1, -1),),
-                  feedfwd_connection_name="cin", lateral_connection_name="clat", feedback_connection_name="cfb",
+        kw = dict(kw, feedfwd_connection_name="cin", lateral_connection_name="clat", feedback_connection_name="cfb",
                   feedfwd_neuron_name="nin", feedback_neuron_name="nfb")
         names = {"feedfwd": "cin", "lateral": "clat", "feedback": "cfb"}
+        if only in (None, "lateral"):
+            kw["lateral_in_transform"] = lambda s: (~s,)
+        if only in (None, "feedback"):
+            kw["feedback_in_transform"] = lambda s: (s.roll(1, -1),)
+    lat_tr = intr and only in (None, "lateral")
+    fb_tr = intr and only in (None, "feedback")
 
     def mk():
         cs = [rdense(B, W1), rdense(B, Wl), rdense(B, Wf)]
@@ -397,7 +403,7 @@ def recurrent_shard(variant, T):
         except Exception as ex:
             tally.violation(f"exception:forward:RecurrentSerial:{type(ex).__name__}", {**case, "step": t}, repr(ex))
             return tally
-        a, b = ff(xs[t]), fb(prev_fb.roll(1, -1) if intr else prev_fb)
+        a, b = ff(xs[t]), fb(prev_fb.roll(1, -1) if fb_tr else prev_fb)
         try:
             i_ff, i_fb, i_lat = inter[names.get("feedfwd", "feedfwd")], inter[names.get("feedback", "feedback")], inter[names.get("lateral", "lateral")]
         except KeyError as ex:
@@ -407,7 +413,7 @@ def recurrent_shard(variant, T):
         ok &= cmp(tally, "recurrent:intermediate", {**case, "step": t, "connection": "feedback"}, i_fb, b, "captured feedback connection output")
         drive = (a * 2.0 - b) if transforms else (a + b)
         s_ff = nff(drive)
-        l = lat(~s_ff if intr else s_ff)
+        l = lat(~s_ff if lat_tr else s_ff)
         ok &= cmp(tally, "recurrent:intermediate", {**case, "step": t, "connection": "lateral"}, i_lat, l, "captured lateral connection output")
         s_fb = nfb(l + 0.5 if transforms else l)
         prev_fb = s_fb
@@ -484,6 +490,9 @@ def run(rep):
             jobs.append((recurrent_shard, ((trainable, tr), T)))
             jobs.append((recurrent_shard, ((trainable, tr, True), T)))
             jobs.append((recurrent_shard, ((trainable, tr, tr, True), T)))
+            if not trainable:
+                jobs.append((recurrent_shard, ((trainable, tr, False, True, "lateral"), T)))
+                jobs.append((recurrent_shard, ((trainable, tr, False, True, "feedback"), T)))
     from checks.c03_neurons import CLS as NEURON_CLS
     for cname in NEURON_CLS:
         jobs.append((neuron_clear_shard, (cname, T)))
@@ -506,7 +515,7 @@ def run(rep):
         "rule": "every boolean input history of length T (as batch) x every layer topology / combine mode / transform choice x every clear "
                 "position; non-trivial = distinct topologies",
     }
-    return rep.finish(cov, floors={"transitions": 150, "distinct_nontrivial": 64})
+    return rep.finish(cov, floors={"transitions": 150, "distinct_nontrivial": 68})
 
 
 def replay(case):
